@@ -157,6 +157,8 @@ func (e Engine) newDB(config dvid.StoreConfig) (*BadgerDB, bool, error) {
 		stopSyncCh: make(chan bool),
 	}
 
+	removeEmptyMemtableFiles(path)
+
 	dvid.TimeInfof("Opening badger @ path %s\n", path)
 	bdp, err := badger.Open(*opts)
 	if err != nil {
@@ -179,6 +181,22 @@ func (e Engine) newDB(config dvid.StoreConfig) (*BadgerDB, bool, error) {
 	}
 
 	return badgerDB, !metadataExists, nil
+}
+
+// removeEmptyMemtableFiles deletes zero-length memtable (.mem) files.  Badger creates a memtable
+// file and then sizes it; a process that dies in between leaves an empty file that holds no
+// entries but makes the next badger.Open fail ("while opening memtables ... Create a new file").
+func removeEmptyMemtableFiles(path string) {
+	files, err := filepath.Glob(filepath.Join(path, "*.mem"))
+	if err != nil {
+		return
+	}
+	for _, f := range files {
+		if fi, err := os.Stat(f); err == nil && fi.Mode().IsRegular() && fi.Size() == 0 {
+			dvid.Infof("Removing empty memtable file %s left by an interrupted start\n", f)
+			os.Remove(f)
+		}
+	}
 }
 
 // ---- RepairableEngine interface not implemented ------
